@@ -1,0 +1,114 @@
+//go:build verif
+
+// Contracts for govc (contract-based deductive verification, /verif). Comment-only file:
+// it is compiled only under the build tag "verif" and contains no code.
+
+package hash_set
+
+//@ spec wfNP(np *nodePool) bool := np != nil && np.pool != nil && -1 <= np.freeNode && int(np.freeNode) < len(np.array) && len(np.array) <= 2147483647 && (forall i int :: 0 <= i && i < len(np.array) ==> -1 <= np.array[i].next && int(np.array[i].next) < len(np.array))
+
+//@ func (*nodePool).getFreeNode
+//@   props C20
+//@   nopanic
+//@   requires wfNP(np)
+//@   modifies np.freeNode, np.array[..]
+//@   ensures[wf] wfNP(np)
+//@   ensures[error_iff_no_free_node] (result1 != nil) <==> (old(np.freeNode) == -1)
+//@   ensures[node_in_range] result1 == nil ==> 0 <= result0 && int(result0) < len(np.array) && result0 == old(np.freeNode)
+//@   ensures[error_changes_nothing] result1 != nil ==> result0 == -1 && np.freeNode == old(np.freeNode)
+
+//@ func (*nodePool).recyleNode
+//@   props C20
+//@   nopanic
+//@   requires wfNP(np) && 0 <= node && int(node) < len(np.array) && np.length > -1000000000000
+//@   modifies np.freeNode, np.length, np.array[..]
+//@   ensures[wf] wfNP(np)
+//@   ensures np.freeNode == node && np.length == old(np.length) - 1
+
+//@ func (*nodePool).add
+//@   props C20
+//@   nopanic
+//@   requires wfNP(np) && -1 <= head && int(head) < len(np.array) && np.length < 1000000000000
+//@   modifies np.freeNode, np.length, np.array[..]
+//@   ensures[wf] wfNP(np)
+//@   ensures[full_pool_is_an_error_that_changes_nothing] old(np.freeNode) == -1 ==> result1 != nil && np.length == old(np.length) && np.freeNode == -1
+//@   ensures[added_node_heads_the_chain] result1 == nil ==> 0 <= result0 && int(result0) < len(np.array) && np.array[result0].next == head && np.length == old(np.length) + 1
+//@   ensures[error_does_not_count] result1 != nil ==> np.length == old(np.length)
+//@   ensures[a_key_the_pool_did_not_store_is_not_reported_added] result1 == nil ==> accepts(np.pool, result0, len(key))
+
+//@ func (*nodePool).element
+//@   props C20
+//@   nopanic
+//@   requires np != nil && np.pool != nil
+//@   modifies nothing
+
+//@ func (*nodePool).compare
+//@   props C20
+//@   nopanic
+//@   requires np != nil && np.pool != nil
+//@   modifies nothing
+
+//@ func (*nodePool).exist
+//@   props C20
+//@   nopanic
+//@   requires wfNP(np) && -1 <= head && int(head) < len(np.array)
+//@   loop 1 invariant wfNP(np) && -1 <= index && int(index) < len(np.array)
+
+//@ spec wfHS(set *HashSet) bool := set != nil && set.hashFunc != nil && wfNP(set.np) && set.haSize >= 1 && len(set.ha) == set.haSize && set.np.capacity == len(set.np.array) && 0 <= set.np.length && set.np.length <= 1000000000000 && (forall b int :: 0 <= b && b < len(set.ha) ==> -1 <= set.ha[b] && int(set.ha[b]) < len(set.np.array))
+
+//@ func (*nodePool).full
+//@   props C20
+//@   nopanic
+//@   requires np != nil
+//@   modifies nothing
+//@   ensures result0 <==> np.length >= np.capacity
+
+//@ func (*nodePool).elemNum
+//@   props C20
+//@   nopanic
+//@   requires np != nil
+//@   modifies nothing
+//@   ensures result0 == np.length
+
+//@ func (*nodePool).elemSize
+//@   props C20
+//@   nopanic
+//@   requires np != nil && np.pool != nil
+//@   modifies nothing
+
+//@ func (*nodePool).validateKey
+//@   props C20
+//@   nopanic
+//@   requires np != nil && np.pool != nil
+//@   modifies nothing
+
+//@ func (*HashSet).Len
+//@   props C20
+//@   nopanic
+//@   requires set != nil && set.np != nil
+//@   modifies nothing
+//@   ensures[len_is_element_count] result0 == set.np.length
+
+//@ func (*HashSet).Full
+//@   props C20
+//@   nopanic
+//@   requires set != nil && set.np != nil
+//@   modifies nothing
+//@   ensures result0 <==> set.np.length >= set.np.capacity
+
+//@ func (*HashSet).exist
+//@   props C20
+//@   nopanic
+//@   requires wfHS(set) && hashNum < uint64(set.haSize)
+//@   modifies nothing
+
+//@ func (*HashSet).Add
+//@   props C20
+//@   nopanic
+//@   requires wfHS(set)
+//@   frame hashFunc pure
+//@   note the user-supplied hash function is assumed not to write the set
+//@   modifies set.ha[..], set.np.freeNode, set.np.length, set.np.array[..]
+//@   ensures[wf] wfHS(set)
+//@   ensures[add_beyond_capacity_is_an_error_that_changes_nothing] old(set.np.length) >= old(set.np.capacity) ==> result0 != nil && set.np.length == old(set.np.length)
+//@   ensures[size_grows_by_at_most_one_and_only_on_success] set.np.length == old(set.np.length) || (result0 == nil && set.np.length == old(set.np.length) + 1)
